@@ -13,7 +13,7 @@ from ..corpus import EXT
 from .. import gen as G
 
 FILES = ["a.py", "b.js", "src/a.py", "src/c.ts", "src/deep/e.java", "lib/f.c", "lib/g.cpp", "K.cs",
-         "tests/t.py", ".hid/x.py", "notes.txt", "src/m.py", "lib/b.js"]
+         "tests/t.py", ".hid/x.py", "notes.txt", "src/m.py", "lib/b.js", "lib/h.h", "src/deep/i.hpp"]
 WEIRD = ['we"ird.py', "back\\slash.py", "café.py", "sp ace.js"]
 DIR_MOVES = [("src", "pkg"), ("lib", "src/lib"), ("src/deep", "deep"), ("pkg", "src"), ("src", "tests")]
 SHAPES = ("one2", "one16", "one31", "one61", "multi", "nested", "strings", "enc_latin1", "multi_ws", "empty", "one30",
@@ -84,6 +84,10 @@ def random_op(rng, files, weights):
         return {"op": "swap", "a": a, "b": b, "by_rename": rng.random() < 0.5}
     if k == "touch":
         return {"op": "touch", "path": rng.choice(files)}
+    if k == "link":
+        a, b = rng.sample(files, 2)
+        return {"op": "link", "src": a, "dst": b.rsplit(".", 1)[0] + "_ln." + a.rsplit(".", 1)[-1] if "." in a else b + "_ln",
+                "hard": rng.random() < 0.5}
     if k == "edit":
         # a small in-place edit anywhere in the file (often far from its start), same path
         kind = rng.choice(("dup_line", "lost_line", "swap_lines", "flip_byte"))
@@ -115,7 +119,7 @@ def random_op(rng, files, weights):
     if k == "scan":
         op = {"op": "scan", "nonce": n}
         if rng.random() < 0.3:
-            op["spelling"] = rng.choice(("dot", "rel_parent", "abs", "dotdot", "abs_dotdot", "rel_outside", "trailing", "symlink", "symlink_abs"))
+            op["spelling"] = rng.choice(("dot", "rel_parent", "abs", "dotdot", "abs_dotdot", "rel_outside", "trailing", "symlink", "symlink_abs", "symlink_dotdot"))
         if rng.random() < 0.1:
             op["verbose"] = True
         if rng.random() < 0.08:
@@ -135,7 +139,7 @@ def random_op(rng, files, weights):
     raise KeyError(k)
 
 
-BASE_WEIGHTS = {"write": 6, "delete": 2, "rename": 3, "swap": 2, "touch": 1, "edit": 2, "set_yml": 1, "set_gitignore": 1,
+BASE_WEIGHTS = {"write": 6, "delete": 2, "rename": 3, "swap": 2, "touch": 1, "edit": 2, "link": 0.6, "set_yml": 1, "set_gitignore": 1,
                 "set_cli": 1, "set_version": 1, "identity": 1.5, "cache_fault": 0.0, "clock": 1, "scan": 5,
                 "report": 0.7, "findings": 0.7, "set_git": 1.0, "set_spelling": 0.4, "set_env": 0.6}
 
